@@ -3,6 +3,7 @@ package hook
 import (
 	"fmt"
 	"reflect"
+	"runtime"
 	"sort"
 	"strings"
 	"sync"
@@ -233,6 +234,21 @@ func Lock(site string, x any) {
 	r := resolve(x)
 	s, g := active()
 	if s == nil {
+		if s2 := cur.Load(); s2 != nil && s2.aborting.Load() && curGID() != s2.rootGID {
+			// teardown: a lock that some task left held (natively too) will never be released; a
+			// goroutine that blocks on it natively is not "durably blocked" and would keep the
+			// bubble from ever becoming quiescent. It cannot go on anyway: it leaves.
+			ok := false
+			if r.mu != nil {
+				ok = r.mu.TryLock()
+			} else {
+				ok = r.rwmu.TryLock()
+			}
+			if !ok {
+				runtime.Goexit()
+			}
+			return
+		}
 		if r.mu != nil {
 			r.mu.Lock()
 		} else {
@@ -343,6 +359,12 @@ func RLock(site string, x any) {
 	}
 	s, g := active()
 	if s == nil {
+		if s2 := cur.Load(); s2 != nil && s2.aborting.Load() && curGID() != s2.rootGID {
+			if !r.rwmu.TryRLock() {
+				runtime.Goexit() // see Lock
+			}
+			return
+		}
 		r.rwmu.RLock()
 		if s2 := cur.Load(); s2 != nil {
 			l := s2.lockFor(r, site)
